@@ -10,7 +10,8 @@ EXTENDS LogRouting, TLC, Json, SequencesExt
 CONSTANTS MaxLogs,        \* number of logs (names L1, L2, ...)
           DestNames,      \* sequence of destination names; added in this order
           MaxSet,         \* number of filter settings per behaviour
-          LvlFirst,       \* level parameters of all but the last setting
+          LvlFirst,       \* level parameters of the first setting
+          LvlMid,         \* level parameters of the settings between the first and the last
           ClsFirst,       \* class lists (sequences of tokens) of all but the last setting
           LvlLast,        \* level parameters of the last setting
           FullLast,       \* TRUE: the last setting takes every subset of the classes (+ malformed lists)
@@ -28,7 +29,7 @@ NoAct == [n |-> "Init", name |-> "", log |-> 0, dest |-> "", t |-> "", lvl |-> -
 AllClassLists == {SetToSortSeq(S, LAMBDA a, b : a < b) : S \in SUBSET (1..6)}
 Malformed     == {<<0>>, <<7>>, <<1, 0>>, <<7, 2>>, <<6, 1>>, <<2, 2, 6>>}
 ClsAt(k) == IF k = MaxSet - 1 THEN (IF FullLast THEN AllClassLists \cup Malformed ELSE ClsLast) ELSE ClsFirst
-LvlAt(k) == IF k = MaxSet - 1 THEN LvlLast ELSE LvlFirst
+LvlAt(k) == IF k = MaxSet - 1 THEN LvlLast ELSE IF k = 0 THEN LvlFirst ELSE LvlMid
 
 \* values for the configuration files (sequences cannot be written there)
 Dests_a    == <<"a">>
